@@ -17,7 +17,9 @@ def _cfg(consts: dict, extra: str = "") -> str:
     if consts:
         lines.append("CONSTANTS")
         for k, v in consts.items():
-            if isinstance(v, str):
+            if isinstance(v, str) and v.startswith("{"):
+                lines.append(f"  {k} = {v}")          # a set literal
+            elif isinstance(v, str):
                 lines.append(f'  {k} = "{v}"')
             else:
                 lines.append(f"  {k} = {v}")
